@@ -31,7 +31,7 @@ def _cases(draw, tier):
     k = pct(draw)
     if k >= 98:
         # a second-side agent ranked by more than a thousand first-side agents
-        mp = draw(st.sampled_from(['hr'] * 12 + ['spa'] * 7 + ['sm'] if tier == 'thorough' else ['hr', 'spa']))
+        mp = draw(st.sampled_from(['hr', 'spa']))    # (a complete sm instance of this size: 10^6 entries, 90 s)
         n1 = draw(st.sampled_from([1001, 1100, 1300]))
         v = {'mp': mp, 'numinst': 1, 'n1': n1, 'twopl': True, 'seed': uni(draw, 0, 9999),
              't2': draw(st.sampled_from([None, 0.0, 0.3]))}
